@@ -426,6 +426,44 @@ def r146(db, ctx):
         ctx.fail('R14.6', f, 'TRANSFAC tag table', f'expected {want}; found {got}')
 
 
+def r1411(db, ctx, roots):
+    ctx.rule('R14.11', 'a blank separator line is recognised by its content being white space (`trim().is_empty()`), as the line parsers do '
+                       '(`line_ending` accepts "\\n" and "\\r\\n"): no reader compares a line with a white-space literal')
+    n = 0
+    for f in roots:
+        if not f.path.endswith('::next'):
+            continue
+        R = X.Rec(f)
+        bodies = [(f, R)] + [(g, X.Rec(g)) for g in db.closures_of(f)]
+        for g, Rg in bodies:
+            for bi in range(len(g.blocks)):
+                t = g.term(bi)
+                if t['k'] != 'switch':
+                    continue
+                d_ = norm(Rg.at(bi).operand(t['discr']))
+                if d_[0] == 'call' and d_[1].endswith(('str::is_empty',)) and d_[2] and norm(d_[2][0])[0] == 'call' and norm(d_[2][0])[1].rsplit('::', 1)[-1].startswith('trim'):
+                    n += 1
+            for bi, t in g.calls():
+                c = g.callee_short(t) or ''
+                if not c.endswith(('PartialEq::eq', 'PartialEq::ne')) or len(t['args']) != 2:
+                    continue
+                sides = [norm(Rg.at(bi).operand(a_)) for a_ in t['args']]
+                for k_ in (0, 1):
+                    lit = sides[k_]
+                    val = None
+                    if lit[0] == 'promoted':
+                        pe = common.promoted_expr(db, lit[1], lit[2])
+                        lit = norm(pe) if pe is not None else lit
+                    if lit[0] == 'kc':
+                        val = common.str_const(lit)
+                    other = X.canon(sides[1 - k_])
+                    if (val is not None and val.strip() == '' and ('buffer' in other or 'line' in other or 'text' in other)) or \
+                            (val is None and lit[0] in ('promoted', 'kc') and 'buffer' in other and 'str' in str(t.get('callee_full') or '')):
+                        ctx.fail('R14.11', g, 'blank-line test', f'the line is compared with the literal {val!r}: a separator line "\\r\\n" (or one holding blanks) is taken for content, '
+                                 'although the line parsers accept it as a line ending — records of a CRLF file are followed by phantom records', span=t['span'])
+    ctx.floor('R14.11', n, 4, 'white-space-insensitive blank tests in the readers')
+
+
 def r147(db, ctx, roots):
     ctx.rule('R14.7', 'each reader has a path returning None taken when the stream reports 0 bytes and nothing non-blank is pending')
     n = 0
@@ -678,6 +716,7 @@ def run(db, ctx):
     r145b(db, ctx)
     r146(db, ctx)
     r147(db, ctx, roots)
+    r1411(db, ctx, roots)
     r148(db, ctx)
     r149(db, ctx)
     r1410(db, ctx)
